@@ -169,6 +169,7 @@ type region struct {
 	fn     *ssa.Function
 	blocks map[*ssa.BasicBlock]bool // nil = whole function
 	header *ssa.BasicBlock          // loop header (nil for function regions)
+	source ssa.Value                // the map / slice being ranged (nil for function regions)
 	// class of the roots: iteration element values / parameters
 	roots map[ssa.Value]vclass
 	desc  string
@@ -620,7 +621,7 @@ func (oa *orderAnalysis) analyseRegion(r *region) *regionResult {
 				case form == "float":
 					hasNonIdempotent = true
 					accumulated[desc] = true
-					if !oa.keyIsIterationKey(r, x.Key) {
+					if !oa.keyIsIterationKey(r, x.Key) && !oa.keyIsInjectiveProjection(r, x.Key) {
 						add("float-sum", x.Pos(), "map "+desc, "floating point sum into "+desc+"[k] in iteration order, with several elements mapping to one key")
 					}
 				case form == "same":
@@ -1104,6 +1105,7 @@ type iteration struct {
 	elems  []ssa.Value
 	pos    token.Pos
 	what   string // "range over map X" / "range over unordered slice X"
+	why    string // for slices: how the slice became unordered
 	source ssa.Value
 }
 
@@ -1153,7 +1155,7 @@ func (it *iteration) region() *region {
 	for _, e := range it.elems {
 		roots[e] = clsElem
 	}
-	return &region{fn: it.fn, blocks: blocks, header: it.header, roots: roots, desc: it.what}
+	return &region{fn: it.fn, blocks: blocks, header: it.header, roots: roots, desc: it.what, source: it.source}
 }
 
 // sliceRanges finds loops over slice value s in fn: `for i := range s` is
@@ -1199,7 +1201,7 @@ func sliceRangesOver(p *core.Prog, fn *ssa.Function, isUnordered func(ssa.Value)
 				}
 				seen[iff.Block()] = true
 				it := &iteration{fn: fn, header: iff.Block(), body: iff.Block().Succs[0], pos: core.NearPos(iff), source: s,
-					what: "range over unordered slice " + describeValue(p, s) + " (" + why + ")"}
+					what: "range over unordered slice " + describeValue(p, s), why: why}
 				// elements: loads of s[i] in the body
 				core.EachInstr(fn, func(e ssa.Instruction) {
 					switch y := e.(type) {
@@ -1400,4 +1402,164 @@ func sortedKeys[V any](m map[string]V) []string {
 	}
 	sort.Strings(ks)
 	return ks
+}
+
+// containerRoot resolves a map/slice value to what identifies the container:
+// the struct field it is loaded from, or the value that created it (through
+// captured variables and single-assignment cells).
+func containerRoot(v ssa.Value) (field *types.Var, root ssa.Value) {
+	for i := 0; i < 10; i++ {
+		switch x := core.Strip(v).(type) {
+		case *ssa.UnOp:
+			if x.Op != token.MUL {
+				return nil, x
+			}
+			switch a := x.X.(type) {
+			case *ssa.FieldAddr:
+				return core.FieldOf(a), nil
+			case *ssa.Alloc:
+				sts := core.AllStoresToCell(a)
+				if len(sts) == 1 {
+					v = sts[0].Val
+					continue
+				}
+				return nil, a
+			case *ssa.FreeVar:
+				v = a
+				continue
+			}
+			return nil, x
+		case *ssa.FreeVar:
+			fn := x.Parent()
+			var bound ssa.Value
+			for idx, f := range fn.FreeVars {
+				if f != x || fn.Parent() == nil {
+					continue
+				}
+				core.EachInstr(fn.Parent(), func(ins ssa.Instruction) {
+					if mc, ok := ins.(*ssa.MakeClosure); ok && mc.Fn == fn && idx < len(mc.Bindings) {
+						bound = mc.Bindings[idx]
+					}
+				})
+			}
+			if bound == nil {
+				return nil, x
+			}
+			if a, ok := bound.(*ssa.Alloc); ok {
+				sts := core.AllStoresToCell(a)
+				if len(sts) == 1 {
+					v = sts[0].Val
+					continue
+				}
+				return nil, a
+			}
+			v = bound
+			continue
+		default:
+			return nil, x
+		}
+	}
+	return nil, v
+}
+
+// keyConstructorsOf: the amounts key constructors used for every insertion
+// into the Amounts map identified by (field, root); ok=false if some
+// insertion uses a key that is not a direct constructor call.
+func (oa *orderAnalysis) keyConstructorsOf(field *types.Var, root ssa.Value) (ctors []*ssa.Function, sites int, ok bool) {
+	p := oa.p
+	addFn := p.Func(pkgAmounts, "Amounts.Add")
+	ok = true
+	same := func(v ssa.Value) bool {
+		f, r := containerRoot(v)
+		if field != nil {
+			return f == field
+		}
+		return f == nil && r == root
+	}
+	check := func(k ssa.Value) {
+		sites++
+		call, isCall := core.Strip(k).(*ssa.Call)
+		if !isCall {
+			ok = false
+			return
+		}
+		ctor := call.Call.StaticCallee()
+		if ctor == nil || core.PkgPathOf(ctor) != pkgAmounts {
+			ok = false
+			return
+		}
+		ctors = append(ctors, ctor)
+	}
+	for _, fn := range p.SrcFuncs() {
+		core.EachInstr(fn, func(ins ssa.Instruction) {
+			switch x := ins.(type) {
+			case *ssa.MapUpdate:
+				if same(x.Map) {
+					check(x.Key)
+				}
+			case *ssa.Call:
+				if x.Call.StaticCallee() == addFn && same(x.Call.Args[0]) {
+					check(x.Call.Args[1])
+				}
+			}
+		})
+	}
+	return
+}
+
+// keyIsInjectiveProjection: the written key is one field of the iteration key
+// of an Amounts map, and every key ever inserted into that map is built by a
+// constructor that sets only that field — so distinct iteration keys project
+// to distinct written keys (one addend per cell).
+func (oa *orderAnalysis) keyIsInjectiveProjection(r *region, k ssa.Value) bool {
+	if r.source == nil {
+		return false
+	}
+	var fv *types.Var
+	var base ssa.Value
+	switch x := core.Strip(k).(type) {
+	case *ssa.Field:
+		fv, base = core.FieldOf(x), x.X
+	case *ssa.UnOp:
+		if fa, ok := x.X.(*ssa.FieldAddr); ok && x.Op == token.MUL {
+			fv, base = core.FieldOf(fa), fa.X
+		}
+	}
+	if fv == nil {
+		return false
+	}
+	// base must be the iteration key (or its spilled variable)
+	isKey := false
+	if c, ok := r.roots[base]; ok && c == clsElem {
+		isKey = true
+	}
+	if a, ok := base.(*ssa.Alloc); ok && oa.isIterationVar(r, a) {
+		isKey = true
+	}
+	if !isKey {
+		return false
+	}
+	field, root := containerRoot(r.source)
+	ctors, sites, ok := oa.keyConstructorsOf(field, root)
+	if !ok || sites == 0 {
+		return false
+	}
+	for _, c := range ctors {
+		sets := 0
+		good := true
+		core.EachInstr(c, func(ins ssa.Instruction) {
+			if st, isSt := ins.(*ssa.Store); isSt {
+				if fa, isFa := st.Addr.(*ssa.FieldAddr); isFa {
+					sets++
+					if core.FieldOf(fa) != fv {
+						good = false
+					}
+				}
+			}
+		})
+		if !good || sets == 0 {
+			return false
+		}
+	}
+	return true
 }
